@@ -1,10 +1,12 @@
 #!/bin/sh
-# usage: tools/sweep.sh <tier> <seed...>   -- run every check for the given seeds, print one line per run
+# usage: tools/sweep.sh <tier> <seed...>   -- run every check for the given seeds, print one line per run;
+# evidence of every run is kept under $SWEEP_EV/<seed>/ (default /tmp/pamsmon-sweep-ev) for tools/margins.py
 tier=$1; shift
 cd "$(dirname "$0")/.."
+base=${SWEEP_EV:-/tmp/pamsmon-sweep-ev}
 for seed in "$@"; do
   for i in $(seq -w 1 20); do
-    out=$(PAMS_EVIDENCE_DIR=${PAMS_EVIDENCE_DIR:-/tmp/pamsmon-sweep-ev} ./check C$i --tier $tier --seed $seed 2>&1)
+    out=$(PAMS_EVIDENCE_DIR=$base/$tier-$seed ./check C$i --tier $tier --seed $seed 2>&1)
     rc=$?
     echo "seed=$seed C$i rc=$rc $(echo "$out" | grep -E '^C[0-9]+ tier' | tail -1)"
     if [ $rc -ne 0 ]; then echo "$out" | grep -E 'VIOLATION|INCONCLUSIVE|violated|CHECK-ERROR' | head -5 | cut -c1-700; fi
